@@ -80,6 +80,28 @@ def search_family(methods):
     return out
 
 
+TPL_TOKENS = ["$", "$$", "$&", "$`", "$'", "$0", "$1", "$2", "$3", "$9", "$00", "$01", "$02", "$03", "$09", "$10", "$11", "$12", "$15", "$20", "$99", "$001", "$010", "$<", "$<n>", "$<x>", "a", "-", "\\", "1", "0", " "]
+TPL_PATTERNS = ['"b"', '""', '"a.b"', "/b/", "/(b)/", "/(a)(b)?/", "/(a)|(b)/g", "/b/g", "/(a)(b)(c)(a)(b)(c)(a)(b)(c)/", "/(a)(b)(c)(a)(b)(c)(a)(b)(c)(a)/", "/(a)(b)(c)(a)(b)(c)(a)(b)(c)(a)(b)/g",
+                "/((((((((((((a))))))))))))/", "/()()()()()()()()()()b/g", "/(x)?b/", "/^/", "/$/g", "/(?:)/g"]
+
+
+def template_family(methods, rng, n):
+    """replace / replaceAll with string and regular-expression patterns (0 .. 12 groups, optional and named groups) x replacement
+    templates drawn from the template token grammar."""
+    out = []
+    recvs = ['"abcabcabcabc"', '"b"', '""', '"xabcabcabcab"', '"aab"', '"a.b$&"']
+    for i in range(n):
+        pat = TPL_PATTERNS[i % len(TPL_PATTERNS)] if i < 4 * len(TPL_PATTERNS) else rng.choice(TPL_PATTERNS)
+        tpl = "".join(rng.choice(TPL_TOKENS) for _ in range(rng.randint(1, 4)))
+        R = rng.choice(recvs)
+        m = rng.choice(["replace", "replace", "replaceAll"])
+        if m not in methods:
+            continue
+        c = "R.%s(%s, %s)" % (m, pat, json.dumps(tpl))
+        out.append(((m, "template-family", h([R, c])), WRAP % (R, c, R)))
+    return out
+
+
 def rand_progs(methods, rng, n):
     out = []
     alpha = "abcXYZ 019,.-\t"
@@ -115,6 +137,7 @@ def main(ctx):
         n_grid = len(progs)
         fam = search_family(live)
         progs += fam if not ctx.quick else [x for i, x in enumerate(fam) if i % 2 == ctx.seed % 2]
+        progs += template_family(live, fixed, 1500 if ctx.quick else 20000) + template_family(live, rng, 1500 if ctx.quick else 20000)
         progs += rand_progs(live, fixed, 3000 if ctx.quick else 60000)
         progs += rand_progs(live, rng, 3000 if ctx.quick else 140000)
         pairs = diff.run_progs(ep, np_, [p[1] for p in progs], per=500)
@@ -140,7 +163,7 @@ def main(ctx):
             continue
         if rec:
             rec.write(json.dumps({"cid": cid, "obs": oh, "m": m, "recv": ident[1], "call": ident[2], "eng": diff.eng_key(e), "ref": n}) + "\n")
-        ctx.violation(("string-method", m, classify(e, n)), {"case": {"receiver": ident[1], "call": ident[2]}, "engine": diff.eng_key(e), "reference": n,
+        ctx.violation(("string-method", m, classify(e, n)), {"case": {"receiver": ident[1], "call": ident[2], "src": src}, "engine": diff.eng_key(e), "reference": n,
                                                              "monitor": "node differential (typed result / error class / receiver unchanged)"})
     if rec:
         rec.close()
